@@ -20,4 +20,4 @@ def run(ctx, replay=None):
                                         "boundary value x tail length systematically, plus random ones) of valid messages, each with its "
                                         "own sequence number, after a valid prefix, against the model data plane and against the REAL gtp5g "
                                         "driver over the simulated kernel; validation, not proof"],
-                           extra_phase=fuzz_phase.phase)
+                           extra_phase=fuzz_phase.phase, directed=pc.directed_c05)
